@@ -761,9 +761,18 @@ def prune_rule(ctx, r):
     facts = ctx.facts
     nxt = facts.fn("<%s::Walk as core::iter::traits::iterator::Iterator>::next" % W)
     skips = nxt.calls_to(W + "::Walk::skip_entry")
-    if len(skips) < 2:
-        r.bad("serial|sites", "anchor-missing: expected skip_entry calls in both the Dir and File arms", fn=nxt)
+    # every entry walkdir hands over — WalkEvent::Dir and WalkEvent::File — goes through skip_entry: one call per arm, or one
+    # call fed from both arms
+    ebn = ExprBuilder(nxt)
+    kinds = set()
+    for c in skips:
+        kinds |= {x[2] for x in walk(ebn.operand(c.args[1])) if x.k == "dc" and x[2] in ("Dir", "File")}
+    if not skips or kinds != {"Dir", "File"}:
+        r.bad("serial|sites", "anchor-missing: expected skip_entry calls for both the Dir and File events (found %d call(s) covering %s)"
+              % (len(skips), sorted(kinds)), fn=nxt)
         return
+    if len(skips) == 1:
+        r.ok("serial|skip|shared", "one skip_entry call decides for Dir and File events alike", fn=nxt)
     scd = nxt.calls_to("walkdir::IntoIter::skip_current_dir")
     if not scd:
         r.bad("serial|skip_current_dir", "Walk::next never calls skip_current_dir", fn=nxt)
